@@ -12,6 +12,14 @@ fn main() {
         std::process::exit(2);
     }
     let root = PathBuf::from(std::env::var("VERIF_ROOT").unwrap_or_else(|_| "/verif".to_string()));
+    if args[1] == "c13-table" {
+        mon::c13::print_table(args[2].parse().expect("seed"));
+        return;
+    }
+    if args[1] == "c13-first-touch" {
+        mon::c13::first_touch(args[2].parse().expect("seed"), args[3].parse().expect("round"));
+        return;
+    }
     if args[1] == "replay" {
         let text = std::fs::read_to_string(&args[2]).expect("cannot read replay file");
         let v: Value = serde_json::from_str(&text).expect("replay file is not JSON");
